@@ -1342,6 +1342,13 @@ func (c *Ctx) valEq(s *State, a, b Val, t types.Type) string {
 			if x.T == y.T {
 				return "true"
 			}
+			// func values are integers (0 = nil func)
+			if x.S == SInt && y.T == "rnil" {
+				return fmt.Sprintf("(= %s 0)", x.T)
+			}
+			if y.S == SInt && x.T == "rnil" {
+				return fmt.Sprintf("(= %s 0)", y.T)
+			}
 			return fmt.Sprintf("(= %s %s)", x.T, y.T)
 		case LocV:
 			return fmt.Sprintf("(= %s %s)", x.T, c.locToRef(y))
@@ -1539,7 +1546,10 @@ func (c *Ctx) unbox(s *State, heap map[string]string, iv IfaceV, t types.Type) V
 	switch sort {
 	case SRef:
 		sc := Scalar{iv.PRef, SRef, t}
-		c.assume(s, c.ptrFact(sc))
+		// the typing fact only holds when the interface really holds a T
+		if pf := c.ptrFact(sc); pf != "true" && pf != "" {
+			c.assume(s, fmt.Sprintf("(=> (= %s %d) %s)", iv.Tag, c.typeID(t), pf))
+		}
 		return sc
 	case SBool:
 		return Scalar{fmt.Sprintf("(= %s 1)", iv.PInt), SBool, t}
